@@ -2219,7 +2219,9 @@ class VM:
                 raise JSRangeError("Invalid count value")
             if len(s) * count > 2**28:
                 raise JSRangeError("Invalid string length")
-            return s * count
+            if not s:
+                return ""
+            return s * int(count)
 
         def startsWith(*args):
             search = to_string(args[0] if args else UNDEFINED)
